@@ -44,7 +44,7 @@ META = {
 STATIC = ["C03/LIR.v", "C03/VSL.v", "C03/ArithSpec.v", "C03/WordArith.v", "C03/TypeLemmas.v", "C03/ArithModel.v",
           "C03/TieBase.v", "C03/VSubst.v", "C03/TieModels.v", "C03/LegacyExact.v", "C03/VenomExact.v",
           "C03/ConvSpec.v", "C03/ConvModel.v", "C03/ConvExact.v", "C03/VConvExact.v", "C03/ConvTie.v",
-          "C03/PowExact.v", "C03/PowTie.v", "C03/UnsafeExact.v", "C03/UnsafeTie.v"]
+          "C03/PowExact.v", "C03/PowTie.v", "C03/UnsafeExact.v", "C03/UnsafeTie.v", "C03/ClampExact.v", "C03/ClampTie.v"]
 # regenerated templates + the ties + the property theorems about the REAL templates
 LEGACY = ["C03/GenLegacy.v", "C03/TieLegacy.v", "C03/PropsLegacy.v"]
 VENOM = ["C03/GenVenom.v", "C03/TieVenom.v", "C03/PropsVenom.v"]
@@ -54,6 +54,7 @@ POWL = ["C03/GenPowLegacy.v", "C03/TiePowLegacy.v", "C03/PropsPowLegacy.v"]
 POWV = ["C03/GenPowVenom.v", "C03/TiePowVenom.v", "C03/PropsPowVenom.v"]
 UNSL = ["C03/GenUnsafeLegacy.v", "C03/TieUnsafeLegacy.v", "C03/PropsUnsafeLegacy.v"]
 UNSV = ["C03/GenUnsafeVenom.v", "C03/TieUnsafeVenom.v", "C03/PropsUnsafeVenom.v"]
+CLAMP = ["C03/GenClamp.v", "C03/TieClamp.v", "C03/PropsClamp.v"]
 
 OPSYM = {"AAdd": "+", "ASub": "-", "AMul": "*", "ADiv": "//", "AMod": "%", "AUSub": "-"}
 
@@ -738,6 +739,78 @@ def unsafe_glue(ctx, tys, cfgs):
     return n_eval, failing
 
 
+# ------------------------------------------------------------------ (6) clamps on all word types, venom usub
+CLAMP_PRELUDE = CONV_PRELUDE + """From Verif Require Import C03.ClampExact.
+Definition canon_row (T : cty) (G : list Z) : list Z := map (fun w => if c_canonb T w then w else -1) G.
+Definition cl_row (t : lir) (G : list Z) : list Z := map (fun w => oc (leval [("x"%string, w)] t)) G.
+Definition cv_row (t : vtemplate) (G : list Z) : list Z := map (fun w => oc (vrun [("%1"%string, w)] t)) G.
+"""
+
+
+def dirty_words(key, rnd):
+    """canonical words of boundary values and near-misses (dirty high/low bits)"""
+    vals = c_grid(key, rnd, 7)
+    ws = {c_enc(key, v) for v in vals}
+    out = set(ws)
+    for w in list(ws)[:6]:
+        out |= {(w + 1) % 2**256, w ^ (1 << 255), w | 1, w ^ (1 << 160), w ^ (1 << 8), (w - 1) % 2**256}
+    out |= {2**256 - 1, 2**255, 1 << 160, 2, 1 << 248}
+    return sorted(out)
+
+
+def clamp_differential(ctx, fam, sample):
+    """fam: dict from c03_export.gen_clamps"""
+    rnd = ctx.rng("clamps")
+    chain = Chain("cancun")
+    rows, meta = [], []
+    n_eval = 0
+    for name, kind in (("legacy", "legacy"), ("venom_arith", "venom"), ("venom_abi", "venom")):
+        for ci, ki, n in fam[name]:
+            if sample is not None and rnd.random() > sample:
+                continue
+            g = dirty_words(ki, rnd)
+            code = ir_snippet_code(n) if kind == "legacy" else venom_snippet_code(n)
+            obs = run_code(chain, code, [(w, 0) for w in g])
+            n_eval += len(g)
+            gl = zlist(g)
+            rows.append({"spec": f"canon_row {ci} {gl}",
+                         "model": (f"cl_row {X.lir_term(n)} {gl}" if kind == "legacy" else f"cv_row {X.vtemplate_term(*n)} {gl}"),
+                         "obs": obs})
+            meta.append((name, ki, n, g, obs))
+    res = compare_rows(CLAMP_PRELUDE, rows, "c03clamp", shard=60)
+    failing, bad_model = [], []
+    for (name, ki, n, g, obs), (sm, mm) in zip(meta, res):
+        for i, e, _ in sm[:1]:
+            failing.append((name, ki, g[i], e, obs[i], n))
+        for i, e, _ in mm[:1]:
+            bad_model.append((name, ki, g[i], e, obs[i]))
+    ctx.corr["clamp_cases"] = n_eval
+    return n_eval, failing, bad_model
+
+
+def usub_differential(ctx, fam):
+    rnd = ctx.rng("vusub")
+    chain = Chain("cancun")
+    rows, meta = [], []
+    n_eval = 0
+    for ci, ty, n in fam["venom_usub"]:
+        if ctx.tier == "quick" and rnd.random() > 0.3:
+            continue
+        g = type_grid(ty, rnd, 9)
+        cs = pairs(3, 0, g)
+        obs = run_code(chain, venom_snippet_code(n), cs)
+        n_eval += len(cs)
+        gl = zlist(g)
+        rows.append({"spec": f"spec_row {ci} AUSub 3 0 {gl}", "model": f"vev_row {X.vtemplate_term(*n)} 3 0 {gl}", "obs": obs})
+        meta.append((ty, n, cs, obs))
+    res = compare_rows(COQ_PRELUDE, rows, "c03vusub", shard=60)
+    failing = []
+    for (ty, n, cs, obs), (sm, mm) in zip(meta, res):
+        for i, e, _ in (sm + mm)[:1]:
+            failing.append((ty, cs[i][0], e, obs[i], n))
+    return n_eval, failing
+
+
 # ------------------------------------------------------------------ main
 def choose_types(ctx, all_tys):
     if ctx.tier == "thorough":
@@ -796,6 +869,12 @@ def generate_and_build(ctx):
         (COQ / "C03" / "GenUnsafeVenom.v").write_text(text)
     except Exception as e:  # noqa
         gen_err = (gen_err or "") + f" unsafe export: {type(e).__name__}: {e}"
+    clampfam = None
+    try:
+        text, clampfam = X.gen_clamps()
+        (COQ / "C03" / "GenClamp.v").write_text(text)
+    except Exception as e:  # noqa
+        gen_err = (gen_err or "") + f" clamp export: {type(e).__name__}: {e}"
     if any(X.CRASHES.get(k) for k in ("legacy", "venom")):
         ctx.extra["convert_generator_crashes"] = {k: v[:10] for k, v in X.CRASHES.items() if v}
     ctx.extra["family_size"] = {"legacy_templates": len(ltempl), "venom_templates": len(vtempl), "numeric_types": 65,
@@ -813,7 +892,8 @@ def generate_and_build(ctx):
            "powl": {"ok": False, "file": "C03/GenPowLegacy.v", "failed_lemma": None, "out": gen_err or ""},
            "powv": {"ok": False, "file": "C03/GenPowVenom.v", "failed_lemma": None, "out": gen_err or ""},
            "unsl": {"ok": False, "file": "C03/GenUnsafeLegacy.v", "failed_lemma": None, "out": gen_err or ""},
-           "unsv": {"ok": False, "file": "C03/GenUnsafeVenom.v", "failed_lemma": None, "out": gen_err or ""}}
+           "unsv": {"ok": False, "file": "C03/GenUnsafeVenom.v", "failed_lemma": None, "out": gen_err or ""},
+           "clamp": {"ok": False, "file": "C03/GenClamp.v", "failed_lemma": None, "out": gen_err or ""}}
     if b0["ok"]:
         ths = []
         if ltempl:
@@ -832,21 +912,24 @@ def generate_and_build(ctx):
             ths.append(threading.Thread(target=build_chain, args=(ctx, UNSL, STATIC, res, "unsl")))
         if vuns:
             ths.append(threading.Thread(target=build_chain, args=(ctx, UNSV, STATIC, res, "unsv")))
+        if clampfam:
+            ths.append(threading.Thread(target=build_chain, args=(ctx, CLAMP, STATIC, res, "clamp")))
         for t in ths:
             t.start()
         for t in ths:
             t.join()
     bl, bv, bcl, bcv, bpl, bpv = res["legacy"], res["venom"], res["convl"], res["convv"], res["powl"], res["powv"]
-    bul, buv = res["unsl"], res["unsv"]
+    bul, buv, bclamp = res["unsl"], res["unsv"], res["clamp"]
     ctx.log(f"coq done {time.time()-t0:.0f}s static={b0['ok']} legacy={bl['ok']} venom={bv['ok']} "
             f"convert-legacy={bcl['ok']} convert-venom={bcv['ok']} pow-legacy={bpl['ok']} pow-venom={bpv['ok']} "
-            f"unchecked-legacy={bul['ok']} unchecked-venom={buv['ok']}")
-    if all(b["ok"] for b in (bl, bv, bcl, bcv, bpl, bpv, bul, buv)):
+            f"unchecked-legacy={bul['ok']} unchecked-venom={buv['ok']} clamps={bclamp['ok']}")
+    if all(b["ok"] for b in (bl, bv, bcl, bcv, bpl, bpv, bul, buv, bclamp)):
         ctx.extra["syntactic_matches"] = (len(ltempl) + len(vtempl) + 130 + len(lconv) + len(vconv) + len(lpow) + len(vpow)
                                           + len(luns) + len(vuns))
 
     return dict(gen_err=gen_err, ltempl=ltempl, vtempl=vtempl, lconv=lconv, vconv=vconv, vextra=vextra, lpow=lpow, vpow=vpow,
-                luns=luns, vuns=vuns, b0=b0, bl=bl, bv=bv, bcl=bcl, bcv=bcv, bpl=bpl, bpv=bpv, bul=bul, buv=buv)
+                luns=luns, vuns=vuns, clampfam=clampfam, b0=b0, bl=bl, bv=bv, bcl=bcl, bcv=bcv, bpl=bpl, bpv=bpv,
+                bul=bul, buv=buv, bclamp=bclamp)
 
 
 def prebuild(ctx):
@@ -861,6 +944,7 @@ def run(ctx):
         ("gen_err", "ltempl", "vtempl", "lconv", "vconv", "vextra", "lpow", "vpow"))
     b0, bl, bv, bcl, bcv, bpl, bpv = (g[k] for k in ("b0", "bl", "bv", "bcl", "bcv", "bpl", "bpv"))
     luns, vuns, bul, buv = g["luns"], g["vuns"], g["bul"], g["buv"]
+    clampfam, bclamp = g["clampfam"], g["bclamp"]
 
     # ---- correspondence / search
     found = False
@@ -973,6 +1057,36 @@ def run(ctx):
                       key=f"unchecked-glue:{f['operation']}:{f['type']}:{f['config']}")
     ctx.log(f"unchecked-ops differentials done {time.time()-t0:.0f}s")
 
+    # ---- clamps of all word types (three implementations) and the venom unary minus
+    if clampfam and b0["ok"]:
+        n, failing, bad_model = clamp_differential(ctx, clampfam, (0.15 if ctx.tier == "quick" else None) if bclamp["ok"] else None)
+        total += n
+        for name, ki, w, e, g_, node in failing[:5]:
+            found = True
+            tstr = str(node) if name == "legacy" else "; ".join(str(i).strip() for i in node[0]) + f" -> {node[1]}"
+            ctx.violation(
+                "failing-input", f"{name} clamp_basetype for {c_src_name(ki)} does not accept exactly the canonical words",
+                {"generator": {"legacy": "vyper.codegen.core.clamp_basetype", "venom_arith": "vyper.codegen_venom.arithmetic.clamp_basetype",
+                               "venom_abi": "vyper.codegen_venom.abi.abi_decoder.clamp_basetype"}[name] + f" on type {c_src_name(ki)}",
+                 "template": " ".join(tstr.split()), "input_word": hex(w),
+                 "expected": "revert" if e == -1 else hex(e), "observed_on_evm": "revert" if g_ == -1 else hex(g_),
+                 "how": "template compiled by the real back end + assembler, executed on pyrevm"},
+                key=f"clamp:{name}:{c_src_name(ki)}")
+        for name, ki, w, l, g_ in bad_model[:5]:
+            if not found:
+                ctx.violation("correspondence-broken", f"Coq evaluator disagrees with the real back end + EVM on an exported {name} clamp",
+                              {"type": c_src_name(ki), "word": hex(w), "coq": str(l), "evm": str(g_)})
+        n, failing = usub_differential(ctx, clampfam)
+        total += n
+        for ty, x, e, g_, node in failing[:5]:
+            found = True
+            ctx.violation("failing-input", f"venom unary minus template for {tyname(ty)} is not exact-or-revert",
+                          {"generator": f"vyper.codegen_venom.expr.Expr.lower_UnaryOp (USub), type {tyname(ty)}",
+                           "template": "; ".join(str(i).strip() for i in node[0]) + f" -> {node[1]}", "x": str(x),
+                           "expected": "revert" if e == -1 else hex(e), "observed_on_evm": "revert" if g_ == -1 else hex(g_)},
+                          key=f"venom-usub:{tyname(ty)}")
+    ctx.log(f"clamp differentials done {time.time()-t0:.0f}s")
+
     # ---- conversions: template differential (+ Search), glue probes, venom-only pairs
     for kind, templ, b in (("legacy", lconv, bcl), ("venom", vconv, bcv)):
         if not templ or not b0["ok"]:
@@ -1040,7 +1154,7 @@ def run(ctx):
     if gen_err and not found:
         ctx.violation("translator-rejected", "template export failed: " + gen_err, {"error": gen_err})
     for b, what in ((b0, "static"), (bl, "legacy"), (bv, "venom"), (bcl, "convert-legacy"), (bcv, "convert-venom"),
-                    (bpl, "pow-legacy"), (bpv, "pow-venom"), (bul, "unchecked-legacy"), (buv, "unchecked-venom")):
+                    (bpl, "pow-legacy"), (bpv, "pow-venom"), (bul, "unchecked-legacy"), (buv, "unchecked-venom"), (bclamp, "clamps")):
         if not b["ok"] and not found and not (gen_err and what != "static"):
             ctx.violation("theorem-broken", f"{b.get('failed_lemma')} in {b.get('file')} ({what})",
                           {"theorem": b.get("failed_lemma"), "file": b.get("file"), "coq_output": (b.get("out") or "")[-1500:]})
